@@ -13,7 +13,7 @@
    entry sequence of real Search calls with the trails (reported as drift, never as a violation). *)
 EXTENDS Eval
 
-BindT(SS, F(_)) == UNION {IF p[1][1] = "ok" THEN {<<q[1], p[2] \o q[2]>> : q \in F(p[1][2])} ELSE {p} : p \in SS}
+BindT(SS, F(_)) == UNION {IF p[1][1] = "ok" THEN {<<q[1], p[2] \o q[2]>> : q \in F(p[1][2])} ELSE {<<Up(p[1]), p[2]>>} : p \in SS}
 UnitT(o) == {<<o, <<>>>>}
 OfSet(SS) == {<<o, <<>>>> : o \in SS}
 Pre(k, SS) == {<<p[1], <<k>> \o p[2]>> : p \in SS}
